@@ -349,3 +349,63 @@ pub fn run_line_clip(l: &[i128]) -> Vec<i128> {
         vec![-8]
     }
 }
+
+
+/// The footprint of a thick stroke (C04): args: width_milli miter_milli join(0 miter 1 miter-clip 2 round 3 bevel) cap aa w h <builder ops>
+/// -> [painted pixels, painted pixels outside the bounding box of the path grown by the stroke outset and one pixel, x, y]
+/// stroke outset = width/2 times max(1, miter limit for miter joins, sqrt(1 + limit^2) for miter-clip joins, sqrt 2 for square caps)
+pub fn run_stroke_fp(l: &[i128]) -> Vec<i128> {
+    if l.len() < 8 {
+        return vec![-3];
+    }
+    use tiny_skia::LineJoin;
+    let width = l[0] as f32 / 1000.0;
+    let miter = l[1] as f32 / 1000.0;
+    let join = [LineJoin::Miter, LineJoin::MiterClip, LineJoin::Round, LineJoin::Bevel][(l[2] as usize) % 4];
+    let cap = cap_of(l[3]);
+    let (w, h) = (l[5] as u32, l[6] as u32);
+    let path = match crate::c02::build_path(&l[7..]) {
+        Some(p) => p,
+        None => return vec![-8],
+    };
+    let mut paint = Paint::default();
+    paint.set_color_rgba8(255, 255, 255, 255);
+    paint.anti_alias = l[4] != 0;
+    let stroke = Stroke { width, miter_limit: miter, line_join: join, line_cap: cap, ..Stroke::default() };
+    let mut pm = match Pixmap::new(w, h) {
+        Some(p) => p,
+        None => return vec![-3],
+    };
+    pm.stroke_path(&path, &paint, &stroke, Transform::identity(), None);
+    let mut k = 1.0f32;
+    if join == LineJoin::Miter {
+        k = k.max(miter);
+    }
+    if join == LineJoin::MiterClip {
+        // the corners of a clipped miter lie on the offset lines beyond the vertex, at most r * sqrt(1 + m^2) from it
+        // (the reading of the C05 known finding C05-miterclip-corners)
+        k = k.max((1.0 + miter * miter).sqrt());
+    }
+    if cap == LineCap::Square {
+        k = k.max(std::f32::consts::SQRT_2);
+    }
+    let grow = (width * 0.5).max(0.5) * k + 1.0 + 0.5;
+    let bb = path.bounds();
+    let (mut painted, mut stray, mut sx, mut sy) = (0i128, 0i128, -1i128, -1i128);
+    for y in 0..h {
+        for x in 0..w {
+            if pm.pixels()[(y * w + x) as usize].alpha() != 0 {
+                painted += 1;
+                let (cx, cy) = (x as f32 + 0.5, y as f32 + 0.5);
+                if cx < bb.left() - grow || cx > bb.right() + grow || cy < bb.top() - grow || cy > bb.bottom() + grow {
+                    stray += 1;
+                    if sx < 0 {
+                        sx = x as i128;
+                        sy = y as i128;
+                    }
+                }
+            }
+        }
+    }
+    vec![painted, stray, sx, sy]
+}
